@@ -97,6 +97,14 @@ Definition lib_fn (name : bytes) : option fn_def :=
                       | VOk (VBytes a) :: _ => Some (Some (VBytes a))
                       | _ => Some None
                       end))
+  else if is "tally" then
+    (* a definition with a per-call context: what was recorded while the two
+       arguments were checked reaches the compiled function *)
+    Some (simple [(KField, TBytes); (KBoth, TInt)] [] TBytes
+            (fun l => match l with
+                      | VOk (VBytes a) :: _ => Some (Some (VBytes (bytes_of_string "tally:0=Bytes;1=Int|" ++ a)))
+                      | _ => Some None
+                      end))
   else if is "boom" then
     Some (simple [(KField, TBytes)] [] TBytes
             (fun l => match l with
